@@ -1,1 +1,1124 @@
-use crate::Ctx; pub fn run(_cx: &mut Ctx) {}
+//! Domain BLK: the RFC 7959 block handler under a deterministic clock – C08..C12, C20.
+//!   BLK sess <M> <ttl_ms> <op>|<op>|...   -> per-op results joined by " | "
+//! ops:  tick <ms>
+//!       req <ep> <pkt>            intercept_request on CoapRequest::from_packet(pkt, ep)
+//!       app <code> <n> (<num> <val>)*n <payload>   application reply on the last request, then intercept_response
+//!       peek <ep> <pkt>           hook: non-touching view of the state cached for that request's key
+//! results:  R <outcome> <resp dump|none> P<request payload> K<peek>
+//!           A <outcome> <resp dump|none> K<peek>
+//!           K<peek>   ;  T
+//! outcome: ok 0|1 ; herr <code byte|none> ; panic
+use crate::pkt::{dump, parse_val, val_token, CodeSpec, PktSpec};
+use crate::{guarded, hex, Ctx, Rng};
+use coap_lite::block_handler::{BlockHandler, BlockHandlerConfig, BlockValue};
+use coap_lite::error::HandlingError;
+use coap_lite::{CoapOption, CoapRequest, MessageClass, Packet, ResponseType};
+use sn_fake_clock::FakeClock;
+use std::alloc::{GlobalAlloc, Layout, System};
+use std::convert::TryFrom;
+use std::sync::atomic::{AtomicUsize, Ordering};
+use std::time::Duration;
+
+// ---- counting allocator (reclamation clause of C20 is observed, not modelled)
+pub struct Counting;
+pub static LIVE: AtomicUsize = AtomicUsize::new(0);
+unsafe impl GlobalAlloc for Counting {
+    unsafe fn alloc(&self, l: Layout) -> *mut u8 {
+        LIVE.fetch_add(l.size(), Ordering::Relaxed);
+        System.alloc(l)
+    }
+    unsafe fn dealloc(&self, p: *mut u8, l: Layout) {
+        LIVE.fetch_sub(l.size(), Ordering::Relaxed);
+        System.dealloc(p, l)
+    }
+}
+
+#[derive(Clone, Debug)]
+pub enum Op {
+    Tick(u64),
+    Req(u8, PktSpec),
+    App(u8, Vec<(u16, Vec<u8>)>, Vec<u8>),
+    Peek(u8, PktSpec),
+}
+
+impl Op {
+    fn token(&self) -> String {
+        match self {
+            Op::Tick(ms) => format!("tick {}", ms),
+            Op::Req(ep, s) => format!("req {} {}", ep, s.line()),
+            Op::App(code, opts, pl) => {
+                let mut s = format!("app {} {}", code, opts.len());
+                for (n, v) in opts {
+                    s.push_str(&format!(" {} {}", n, val_token(v)));
+                }
+                s.push(' ');
+                s.push_str(&val_token(pl));
+                s
+            }
+            Op::Peek(ep, s) => format!("peek {} {}", ep, s.line()),
+        }
+    }
+}
+
+#[derive(Clone, Debug, PartialEq)]
+pub enum Outcome {
+    Ok(bool),
+    Herr(Option<u8>),
+    Panic,
+}
+
+impl Outcome {
+    fn token(&self) -> String {
+        match self {
+            Outcome::Ok(b) => format!("ok {}", *b as u8),
+            Outcome::Herr(Some(c)) => format!("herr {}", c),
+            Outcome::Herr(None) => "herr none".into(),
+            Outcome::Panic => "panic".into(),
+        }
+    }
+}
+
+#[derive(Clone, Debug, PartialEq)]
+pub struct Peek {
+    pub buf: Option<usize>,
+    pub resp: bool,
+    pub b2: Option<(u16, bool, u8)>,
+}
+
+fn peek_token(p: &Option<Peek>) -> String {
+    match p {
+        None => "Knone".into(),
+        Some(p) => format!(
+            "Kbuf={},resp={},b2={}",
+            p.buf.map(|x| x.to_string()).unwrap_or("n".into()),
+            p.resp as u8,
+            p.b2.map(|(n, m, s)| format!("{}/{}/{}", n, m as u8, s)).unwrap_or("n".into())
+        ),
+    }
+}
+
+#[derive(Clone, Debug)]
+pub struct StepOut {
+    pub outcome: Outcome,
+    pub resp: Option<Packet>,
+    pub req_payload: Vec<u8>,
+    pub peek: Option<Peek>,
+    pub text: String,
+}
+
+pub struct Session {
+    pub m: usize,
+    pub ttl: u64,
+    handler: BlockHandler<u8>,
+    last: Option<CoapRequest<u8>>,
+    pub ops: Vec<Op>,
+    pub outs: Vec<StepOut>,
+}
+
+fn to_outcome(r: Option<Result<bool, HandlingError>>) -> Outcome {
+    match r {
+        None => Outcome::Panic,
+        Some(Ok(b)) => Outcome::Ok(b),
+        Some(Err(e)) => Outcome::Herr(e.code.map(|c| u8::from(MessageClass::Response(c)))),
+    }
+}
+
+impl Session {
+    pub fn new(m: usize, ttl: u64) -> Session {
+        FakeClock::set_time(0);
+        Session {
+            m,
+            ttl,
+            handler: BlockHandler::new(BlockHandlerConfig { max_total_message_size: m, cache_expiry_duration: Duration::from_millis(ttl) }),
+            last: None,
+            ops: vec![],
+            outs: vec![],
+        }
+    }
+    fn peek_of(&self, req: &CoapRequest<u8>) -> Option<Peek> {
+        self.handler.verif_peek(req).map(|(buf, resp, b2)| Peek { buf, resp, b2: b2.map(|b| (b.num, b.more, b.size_exponent)) })
+    }
+    pub fn step(&mut self, op: Op) -> StepOut {
+        let out = match &op {
+            Op::Tick(ms) => {
+                FakeClock::advance_time(*ms);
+                StepOut { outcome: Outcome::Ok(false), resp: None, req_payload: vec![], peek: None, text: "T".into() }
+            }
+            Op::Req(ep, spec) => {
+                let built = guarded(|| CoapRequest::from_packet(spec.build(), *ep));
+                match built {
+                    None => {
+                        self.last = None;
+                        StepOut { outcome: Outcome::Panic, resp: None, req_payload: vec![], peek: None, text: "R panic none P- Knone".into() }
+                    }
+                    Some(mut req) => {
+                        let h = &mut self.handler;
+                        let r = guarded(|| h.intercept_request(&mut req));
+                        let outcome = to_outcome(r);
+                        let peek = guarded(|| self.peek_of(&req)).unwrap_or(None);
+                        let resp = req.response.as_ref().map(|r| r.message.clone());
+                        let text = format!(
+                            "R {} {} P{} {}",
+                            outcome.token(),
+                            resp.as_ref().map(|p| dump(p)).unwrap_or("none".into()),
+                            val_token(&req.message.payload),
+                            peek_token(&peek)
+                        );
+                        let so = StepOut { outcome, resp, req_payload: req.message.payload.clone(), peek, text };
+                        self.last = Some(req);
+                        so
+                    }
+                }
+            }
+            Op::App(code, opts, payload) => match self.last.take() {
+                None => StepOut { outcome: Outcome::Ok(false), resp: None, req_payload: vec![], peek: None, text: "A skip".into() },
+                Some(mut req) => {
+                    if let Some(resp) = req.response.as_mut() {
+                        resp.message.header.code = MessageClass::from(*code);
+                        for (n, v) in opts {
+                            resp.message.add_option(CoapOption::from(*n), v.clone());
+                        }
+                        resp.message.payload = payload.clone();
+                    }
+                    let h = &mut self.handler;
+                    let r = guarded(|| h.intercept_response(&mut req));
+                    let outcome = to_outcome(r);
+                    let peek = guarded(|| self.peek_of(&req)).unwrap_or(None);
+                    let resp = req.response.as_ref().map(|r| r.message.clone());
+                    let text = format!("A {} {} {}", outcome.token(), resp.as_ref().map(|p| dump(p)).unwrap_or("none".into()), peek_token(&peek));
+                    let so = StepOut { outcome, resp, req_payload: req.message.payload.clone(), peek, text };
+                    self.last = Some(req);
+                    so
+                }
+            },
+            Op::Peek(ep, spec) => {
+                let built = guarded(|| CoapRequest::from_packet(spec.build(), *ep));
+                let peek = built.and_then(|req| guarded(|| self.peek_of(&req)).unwrap_or(None));
+                StepOut { outcome: Outcome::Ok(false), resp: None, req_payload: vec![], peek: peek.clone(), text: peek_token(&peek) }
+            }
+        };
+        self.ops.push(op);
+        self.outs.push(out.clone());
+        out
+    }
+    pub fn line(&self) -> String {
+        format!("BLK sess {} {} {}", self.m, self.ttl, self.ops.iter().map(|o| o.token()).collect::<Vec<_>>().join("|"))
+    }
+    pub fn result(&self) -> String {
+        self.outs.iter().map(|o| o.text.clone()).collect::<Vec<_>>().join(" | ")
+    }
+    pub fn emit(&self, cx: &mut Ctx) -> String {
+        let l = self.line();
+        cx.case(&l, &self.result());
+        cx.nontrivial(&l);
+        l
+    }
+}
+
+// ------------------------------------------------------------------ request builders
+
+pub fn bv_bytes(num: usize, more: bool, szx: u8) -> Vec<u8> {
+    let scalar = (num as u64) << 4 | (more as u64) << 3 | szx as u64;
+    let mut out = vec![];
+    let mut v = scalar;
+    while v > 0 {
+        out.push((v & 0xff) as u8);
+        v >>= 8;
+    }
+    out.reverse();
+    out
+}
+
+pub fn parse_bv(b: &[u8]) -> Option<(usize, bool, u8)> {
+    if b.len() > 3 {
+        return None;
+    }
+    let v = b.iter().fold(0usize, |a, &x| a << 8 | x as usize);
+    Some((v >> 4, (v >> 3) & 1 == 1, (v & 7) as u8))
+}
+
+#[derive(Clone, Debug)]
+pub struct ReqShape {
+    pub typ: u8,
+    pub code: u8,
+    pub tok: Vec<u8>,
+    pub path: Vec<Vec<u8>>,
+    pub extra: Vec<(u16, Vec<u8>)>,
+}
+
+impl ReqShape {
+    pub fn spec(&self, mid: u16, block1: Option<Vec<u8>>, block2: Option<Vec<u8>>, payload: &[u8]) -> PktSpec {
+        let mut opts: Vec<(u16, Vec<u8>)> = self.path.iter().map(|s| (11u16, s.clone())).collect();
+        opts.extend(self.extra.iter().cloned());
+        if let Some(b) = block2 {
+            opts.push((23, b));
+        }
+        if let Some(b) = block1 {
+            opts.push((27, b));
+        }
+        PktSpec { vtt: 0x40 | self.typ << 4 | self.tok.len() as u8, code: CodeSpec::Byte(self.code), mid, tok: self.tok.clone(), opts, payload: payload.to_vec() }
+    }
+}
+
+fn first_opt(p: &Packet, n: u16) -> Option<Vec<u8>> {
+    p.get_first_option(CoapOption::from(n)).cloned()
+}
+
+fn other_opts(p: &Packet, skip: &[u16]) -> Vec<(u16, Vec<u8>)> {
+    let mut o = vec![];
+    for (n, l) in p.options() {
+        if skip.contains(n) {
+            continue;
+        }
+        for v in l.iter() {
+            o.push((*n, v.clone()));
+        }
+    }
+    o
+}
+
+fn overhead_of(p: &Packet) -> usize {
+    let mut q = p.clone();
+    q.payload = vec![];
+    q.to_bytes_unlimited().map(|b| b.len()).unwrap_or(usize::MAX)
+}
+
+fn body_of(rng: &mut Rng, n: usize) -> Vec<u8> {
+    let salt = rng.next();
+    (0..n).map(|i| ((i as u64).wrapping_mul(31).wrapping_add(salt) % 251) as u8).collect()
+}
+
+// ------------------------------------------------------------------ scenario A: Block2 download (C08, C10)
+
+pub struct Download<'a> {
+    pub shape: &'a ReqShape,
+    pub ep: u8,
+    pub m: usize,
+    pub body: Vec<u8>,
+    pub resp_opts: Vec<(u16, Vec<u8>)>,
+    pub first_szx: Option<u8>,
+    pub reduce_at: Option<(usize, u8)>, // at block index j switch to smaller szx
+}
+
+fn run_download(cx: &mut Ctx, d: &Download, sess: &mut Session, check_release: bool) {
+    let shape = d.shape;
+    let mut mid = 100u16;
+    let b2 = d.first_szx.map(|s| bv_bytes(0, false, s));
+    let o = sess.step(Op::Req(d.ep, shape.spec(mid, None, b2, &[])));
+    let mut problems: Vec<(&'static str, String)> = vec![];
+    let mut got: Vec<u8> = vec![];
+    if o.outcome != Outcome::Ok(false) {
+        problems.push(("C08", format!("first request of a transfer was not passed to the application: {}", o.outcome.token())));
+    }
+    // the application's reply
+    let a = sess.step(Op::App(0x45, d.resp_opts.clone(), d.body.clone()));
+    // overhead of the reply as the application produced it (request's mid/token, app options, no payload, no Block2)
+    let ov = {
+        let mut p = Packet::new();
+        p.header.set_type(if shape.typ == 0 { coap_lite::MessageType::Acknowledgement } else { coap_lite::MessageType::NonConfirmable });
+        p.set_token(shape.tok.clone());
+        for (n, v) in &d.resp_opts {
+            p.add_option(CoapOption::from(*n), v.clone());
+        }
+        overhead_of(&p)
+    };
+    // the budget must also leave room for the request itself (its overhead is measured the same way)
+    let ovq = overhead_of(&shape.spec(mid, None, Some(bv_bytes(4095, false, 6)), &[]).build());
+    let valid = d.m >= ov + 28 && d.m >= ovq + 28;
+    if !valid {
+        cx.stat("download_budget_below_overhead");
+        sess.emit(cx);
+        return;
+    }
+    let in_c10_range = d.m >= ov + 28 && d.m <= 1280;
+    let mut resp = match (&a.outcome, &a.resp) {
+        (Outcome::Ok(_), Some(r)) => r.clone(),
+        (oc, _) => {
+            if d.m >= ov + 28 {
+                problems.push(("C08", format!("intercept_response failed: {}", oc.token())));
+            }
+            report(cx, sess, problems);
+            return;
+        }
+    };
+    let fragmented = a.outcome == Outcome::Ok(true);
+    let mut client_szx: Option<u8> = d.first_szx;
+    let mut offset = 0usize;
+    let mut blocks = 0usize;
+    let mut cur_size_cap: Option<usize> = d.first_szx.map(|s| 16usize << s);
+    loop {
+        // ---- checks on this response
+        if resp.header.message_id != mid || resp.get_token() != &shape.tok[..] {
+            problems.push(("C12", format!("reply carries mid {} / token {} instead of the request's {} / {}", resp.header.message_id, hex(resp.get_token()), mid, hex(&shape.tok))));
+        }
+        let wire_len = resp.to_bytes_unlimited().map(|b| b.len()).unwrap_or(usize::MAX);
+        let blk = first_opt(&resp, 23).and_then(|b| parse_bv(&b));
+        if in_c10_range && wire_len > d.m {
+            problems.push(("C10", format!("message of {} bytes exceeds the budget {}", wire_len, d.m)));
+        }
+        if other_opts(&resp, &[23]) != {
+            let mut so = d.resp_opts.clone();
+            so.sort_by_key(|x| x.0);
+            so
+        } {
+            problems.push(("C08", "a block does not repeat the application's other response options".into()));
+        }
+        match blk {
+            None => {
+                // unfragmented
+                got.extend_from_slice(&resp.payload);
+                if fragmented {
+                    problems.push(("C08", "fragmented response without Block2 option".into()));
+                }
+                break;
+            }
+            Some((num, more, szx)) => {
+                let size = 16usize << szx;
+                if szx > 6 {
+                    problems.push(("C10", format!("block size exponent {} (size {})", szx, size)));
+                }
+                if let Some(cap) = cur_size_cap {
+                    if size > cap {
+                        problems.push(("C10", format!("block size {} larger than the client asked for ({})", size, cap)));
+                    }
+                    if in_c10_range && cap + ov + 32 <= d.m && size != cap && blocks == 0 {
+                        problems.push(("C10", format!("client's size {} fits the budget with room to spare but {} was used", cap, size)));
+                    }
+                }
+                if num * size != offset {
+                    problems.push(("C08", format!("block number {} x size {} does not match byte offset {}", num, size, offset)));
+                }
+                if more && resp.payload.len() != size {
+                    problems.push(("C08", format!("non-final block carries {} bytes, block size is {}", resp.payload.len(), size)));
+                }
+                got.extend_from_slice(&resp.payload);
+                offset += resp.payload.len();
+                blocks += 1;
+                if !more {
+                    break;
+                }
+                if blocks > 3000 {
+                    problems.push(("C08", "transfer does not end".into()));
+                    break;
+                }
+                // next request: same or reduced size
+                let mut next_szx = client_szx.unwrap_or(szx).min(szx);
+                if let Some((j, s)) = d.reduce_at {
+                    if blocks >= j {
+                        next_szx = next_szx.min(s);
+                    }
+                }
+                client_szx = Some(next_szx);
+                let nsize = 16usize << next_szx;
+                cur_size_cap = Some(nsize);
+                if offset % nsize != 0 {
+                    problems.push(("C08", "client cannot continue at a smaller block size (offset not aligned)".into()));
+                    break;
+                }
+                mid = mid.wrapping_add(1);
+                let o = sess.step(Op::Req(d.ep, shape.spec(mid, None, Some(bv_bytes(offset / nsize, false, next_szx)), &[])));
+                match (&o.outcome, &o.resp) {
+                    (Outcome::Ok(true), Some(r)) => resp = r.clone(),
+                    (oc, _) => {
+                        problems.push(("C08", format!("follow-up block request was not served from the cache: {}", oc.token())));
+                        break;
+                    }
+                }
+            }
+        }
+    }
+    if problems.iter().all(|p| p.0 != "C08") && got != d.body {
+        problems.push(("C08", format!("reassembled body has {} bytes and differs from the {}-byte body the application produced", got.len(), d.body.len())));
+    }
+    if check_release && problems.is_empty() {
+        // the entry is released: a fresh request reaches the application again
+        let pk = sess.step(Op::Peek(d.ep, shape.spec(0, None, None, &[])));
+        if let Some(p) = &pk.peek {
+            if p.resp {
+                problems.push(("C08", "cached response not released after the final block".into()));
+            }
+        }
+        mid = mid.wrapping_add(1);
+        let o = sess.step(Op::Req(d.ep, shape.spec(mid, None, None, &[])));
+        if o.outcome != Outcome::Ok(false) {
+            problems.push(("C08", "request after a completed transfer did not reach the application".into()));
+        }
+    }
+    cx.stat(if fragmented { "download_fragmented" } else { "download_unfragmented" });
+    report(cx, sess, problems);
+}
+
+fn report(cx: &mut Ctx, sess: &Session, problems: Vec<(&'static str, String)>) {
+    let line = sess.emit(cx);
+    for (p, d) in problems {
+        cx.oracle_fail(p, &line, &d);
+    }
+}
+
+// ------------------------------------------------------------------ scenario B: Block1 upload (C09, C10)
+
+pub struct Upload<'a> {
+    pub shape: &'a ReqShape,
+    pub ep: u8,
+    pub m: usize,
+    pub body: Vec<u8>,
+    pub szx: u8,
+    pub dups: Vec<usize>, // consecutive deliveries per block (cycled)
+    pub abandoned: Option<(Vec<u8>, u8, usize)>, // other body, szx, number of blocks delivered before giving up
+    pub dup_final: usize,
+}
+
+fn run_upload(cx: &mut Ctx, u: &Upload, sess: &mut Session) {
+    let shape = u.shape;
+    let mut problems: Vec<(&'static str, String)> = vec![];
+    let mut mid = 500u16;
+    if let Some((other, oszx, nblocks)) = &u.abandoned {
+        let osize = 16usize << oszx;
+        let chunks: Vec<&[u8]> = other.chunks(osize).collect();
+        for (i, c) in chunks.iter().enumerate().take(*nblocks) {
+            let more = i + 1 < chunks.len();
+            if !more {
+                break; // never complete the abandoned upload
+            }
+            mid += 1;
+            sess.step(Op::Req(u.ep, shape.spec(mid, Some(bv_bytes(i, true, *oszx)), None, c)));
+        }
+    }
+    let size = 16usize << u.szx;
+    let chunks: Vec<Vec<u8>> = if u.body.is_empty() { vec![vec![]] } else { u.body.chunks(size).map(|c| c.to_vec()).collect() };
+    let n = chunks.len();
+    let mut app_calls = 0usize;
+    for (i, c) in chunks.iter().enumerate() {
+        let more = i + 1 < n;
+        let reps = if more { u.dups[i % u.dups.len()].max(1) } else { 1 + u.dup_final };
+        for rep in 0..reps {
+            mid += 1;
+            let o = sess.step(Op::Req(u.ep, shape.spec(mid, Some(bv_bytes(i, more, u.szx)), None, c)));
+            let ov = overhead_of(&shape.spec(mid, Some(bv_bytes(i, more, u.szx)), None, &[]).build());
+            let admits = u.m >= ov + 12 + size && u.m <= 1280;
+            let b1 = o.resp.as_ref().and_then(|r| first_opt(r, 27)).and_then(|b| parse_bv(&b));
+            if more {
+                match (&o.outcome, &o.resp) {
+                    (Outcome::Ok(true), Some(r)) => {
+                        if u8::from(r.header.code) != 0x5F {
+                            problems.push(("C09", format!("non-final block {} answered with code {:#x} instead of 2.31", i, u8::from(r.header.code))));
+                        }
+                        match b1 {
+                            Some((num, _, szx)) => {
+                                if szx > u.szx {
+                                    problems.push(("C09", format!("acknowledged size exponent {} larger than the client's {}", szx, u.szx)));
+                                    problems.push(("C10", format!("acknowledged block size exponent {} larger than the client's {}", szx, u.szx)));
+                                }
+                                if admits && (num != i || szx != u.szx) {
+                                    problems.push(("C09", format!("block {} acknowledged as num {} szx {}", i, num, szx)));
+                                }
+                                // C10: the client's next upload block at the acknowledged size fits the budget
+                                let nsz = 16usize << szx;
+                                let next = shape.spec(mid, Some(bv_bytes(i + 1, true, szx)), None, &vec![0u8; nsz]).build();
+                                let nl = next.to_bytes_unlimited().map(|b| b.len()).unwrap_or(usize::MAX);
+                                if u.m >= ov + 28 && u.m <= 1280 && nl > u.m {
+                                    problems.push(("C10", format!("next upload block at the acknowledged size {} needs {} bytes, budget is {}", nsz, nl, u.m)));
+                                }
+                                if szx > 6 {
+                                    problems.push(("C10", format!("acknowledged block size exponent {}", szx)));
+                                }
+                            }
+                            None => problems.push(("C09", format!("2.31 for block {} without a Block1 option", i))),
+                        }
+                        if r.header.message_id != mid || r.get_token() != &shape.tok[..] {
+                            problems.push(("C12", "reply does not carry the request's message id / token".into()));
+                        }
+                    }
+                    (oc, _) => {
+                        if admits {
+                            problems.push(("C09", format!("non-final block {} was not answered 2.31 Continue: {}", i, oc.token())));
+                        }
+                    }
+                }
+            } else {
+                match &o.outcome {
+                    Outcome::Ok(false) => {
+                        app_calls += 1;
+                        if rep == 0 {
+                            if o.req_payload != u.body {
+                                problems.push(("C09", format!("application received {} bytes instead of the {}-byte body (first difference at {})", o.req_payload.len(), u.body.len(), o.req_payload.iter().zip(u.body.iter()).position(|(a, b)| a != b).unwrap_or(o.req_payload.len().min(u.body.len())))));
+                            }
+                            if b1.is_none() {
+                                problems.push(("C09", "final block's response lacks the Block1 acknowledgement".into()));
+                            }
+                        } else {
+                            problems.push(("C09", format!("re-delivered final block reached the application again (delivery {} of block {}, {} bytes)", rep + 1, i, o.req_payload.len())));
+                        }
+                    }
+                    oc => {
+                        if admits && rep == 0 {
+                            problems.push(("C09", format!("final block did not reach the application: {}", oc.token())));
+                        }
+                    }
+                }
+            }
+        }
+    }
+    let _ = app_calls;
+    report(cx, sess, problems);
+}
+
+// ------------------------------------------------------------------ scenario C: hostile traffic (C11)
+
+fn hostile_request(rng: &mut Rng, shapes: &[ReqShape]) -> (u8, PktSpec) {
+    let mut shape = rng.pick(shapes).clone();
+    shape.typ = rng.below(4) as u8;
+    if rng.chance(1, 6) {
+        shape.code = *rng.pick(&[0u8, 1, 2, 3, 4, 5, 0x45, 0xFF, 0x20]);
+    }
+    // option bloat
+    match rng.below(6) {
+        0 => shape.extra.push((15, vec![0x71; *rng.pick(&[200usize, 268, 269, 600, 1000, 1266, 1270, 1400])])),
+        1 => {
+            for _ in 0..rng.below(8) {
+                shape.extra.push((15, vec![0x72; 200]));
+            }
+        }
+        _ => {}
+    }
+    let blockval = |rng: &mut Rng| -> Vec<u8> {
+        match rng.below(8) {
+            0 => { let n = rng.below(6) as usize; rng.bytes(n) }
+            _ => {
+                let num = *rng.pick(&[0usize, 0, 1, 1, 2, 100, 4095, 65535]);
+                bv_bytes(num, rng.chance(1, 2), rng.below(8) as u8)
+            }
+        }
+    };
+    let b1 = if rng.chance(1, 2) { Some(blockval(rng)) } else { None };
+    let b2 = if rng.chance(1, 2) { Some(blockval(rng)) } else { None };
+    let pl = *rng.pick(&[0usize, 0, 1, 15, 16, 17, 64, 500, 1024, 1200]);
+    let payload = vec![0x5a; pl];
+    let ep = rng.below(3) as u8;
+    (ep, shape.spec(rng.below(65536) as u16, b1, b2, &payload))
+}
+
+fn run_hostile(cx: &mut Ctx, rng: &mut Rng, shapes: &[ReqShape]) {
+    let m = match rng.below(6) {
+        0 => rng.below(65) as usize,
+        1 => 1152,
+        2 => rng.below(5001) as usize,
+        3 => rng.range(20, 60) as usize,
+        _ => *rng.pick(&[0usize, 16, 21, 22, 23, 24, 32, 37, 38, 64, 128, 1280, 5000]),
+    };
+    let mut sess = Session::new(m, 60_000);
+    let mut problems: Vec<(&'static str, String)> = vec![];
+    let n = rng.range(1, 6);
+    for _ in 0..n {
+        let (ep, spec) = hostile_request(rng, shapes);
+        let before = sess.peek_of(&CoapRequest::from_packet(spec.build(), ep)).and_then(|p| p.buf).unwrap_or(0);
+        let had_response = (spec.vtt >> 4) & 3 < 2;
+        let plen = spec.payload.len();
+        let o = sess.step(Op::Req(ep, spec));
+        let after = o.peek.as_ref().and_then(|p| p.buf);
+        match &o.outcome {
+            Outcome::Panic => problems.push(("C11", "intercept_request panicked".into())),
+            Outcome::Herr(code) => {
+                match code {
+                    None => {
+                        if had_response {
+                            problems.push(("C11", "code-less handling error although a reply was prepared (cannot be rendered)".into()));
+                        }
+                    }
+                    Some(c) => {
+                        if *c < 0x80 {
+                            problems.push(("C11", format!("handling error with non-error code {:#x}", c)));
+                        }
+                    }
+                }
+            }
+            Outcome::Ok(_) => {}
+        }
+        if let Some(a) = after {
+            if a > before + 16384 + plen {
+                problems.push(("C11", format!("upload buffer grew from {} to {} bytes on a request with {} payload bytes", before, a, plen)));
+            }
+        }
+        if o.outcome == Outcome::Ok(false) || rng.chance(1, 5) {
+            // application reply
+            let body = *rng.pick(&[0usize, 1, 16, 100, 1024, 1500, 10000]);
+            let mut opts: Vec<(u16, Vec<u8>)> = vec![];
+            match rng.below(6) {
+                0 => opts.push((4, vec![1; 8])),
+                1 => opts.push((8, vec![0x6c; *rng.pick(&[300usize, 1300, 2000])])),
+                2 => opts.push((23, bv_bytes(rng.below(3) as usize, rng.chance(1, 2), rng.below(8) as u8))),
+                _ => {}
+            }
+            let a = sess.step(Op::App(*rng.pick(&[0x45u8, 0x44, 0x84, 0x5F]), opts, vec![0x62; body]));
+            match &a.outcome {
+                Outcome::Panic => problems.push(("C11", "intercept_response panicked".into())),
+                Outcome::Herr(Some(c)) if *c < 0x80 => problems.push(("C11", format!("handling error with non-error code {:#x}", c))),
+                Outcome::Herr(None) => {
+                    if a.resp.is_some() {
+                        problems.push(("C11", "code-less handling error although a reply exists".into()));
+                    }
+                }
+                _ => {}
+            }
+        }
+    }
+    report(cx, &sess, problems);
+}
+
+// ------------------------------------------------------------------ scenario D: interleavings (C12)
+
+#[derive(Clone)]
+struct Script {
+    ep: u8,
+    steps: Vec<(PktSpec, Option<(Vec<(u16, Vec<u8>)>, Vec<u8>)>)>, // request, app reply if it reaches the app
+}
+
+fn run_script_ops(sess: &mut Session, sc: &Script, idx: usize) -> Vec<String> {
+    let (spec, reply) = &sc.steps[idx];
+    let mut out = vec![];
+    let o = sess.step(Op::Req(sc.ep, spec.clone()));
+    out.push(o.text.split(" K").next().unwrap_or("").to_string());
+    if o.outcome == Outcome::Ok(false) {
+        if let Some((opts, body)) = reply {
+            let a = sess.step(Op::App(0x45, opts.clone(), body.clone()));
+            out.push(a.text.split(" K").next().unwrap_or("").to_string());
+        }
+    }
+    // replies belong to the request being answered
+    if let Some(r) = &o.resp {
+        if r.header.message_id != spec.mid || r.get_token() != &spec.tok[..] {
+            out.push("WRONG-CORRELATION".into());
+        }
+    }
+    out
+}
+
+fn interleavings(a: usize, b: usize, f: &mut dyn FnMut(&[u8])) {
+    fn rec(a: usize, b: usize, cur: &mut Vec<u8>, f: &mut dyn FnMut(&[u8])) {
+        if a == 0 && b == 0 {
+            f(cur);
+            return;
+        }
+        if a > 0 {
+            cur.push(0);
+            rec(a - 1, b, cur, f);
+            cur.pop();
+        }
+        if b > 0 {
+            cur.push(1);
+            rec(a, b - 1, cur, f);
+            cur.pop();
+        }
+    }
+    rec(a, b, &mut vec![], f);
+}
+
+fn download_script(shape: &ReqShape, ep: u8, body: &[u8], szx: u8, midbase: u16) -> Script {
+    let size = 16usize << szx;
+    let nblocks = (body.len() + size - 1) / size;
+    let mut steps = vec![(shape.spec(midbase, None, Some(bv_bytes(0, false, szx)), &[]), Some((vec![(4u16, vec![midbase as u8])], body.to_vec())))];
+    for i in 1..nblocks.min(4) {
+        let mut sh = shape.clone();
+        sh.tok = vec![midbase as u8, i as u8];
+        steps.push((sh.spec(midbase + i as u16, None, Some(bv_bytes(i, false, szx)), &[]), Some((vec![], b"fresh".to_vec()))));
+    }
+    Script { ep, steps }
+}
+
+fn upload_script(shape: &ReqShape, ep: u8, body: &[u8], szx: u8, midbase: u16) -> Script {
+    let size = 16usize << szx;
+    let chunks: Vec<&[u8]> = body.chunks(size).collect();
+    let n = chunks.len();
+    let mut steps = vec![];
+    for (i, c) in chunks.iter().enumerate().take(4) {
+        let mut sh = shape.clone();
+        sh.tok = vec![midbase as u8, 0x80 | i as u8];
+        steps.push((sh.spec(midbase + i as u16, Some(bv_bytes(i, i + 1 < n, szx)), None, c), Some((vec![], b"done".to_vec()))));
+    }
+    Script { ep, steps }
+}
+
+fn run_interleavings(cx: &mut Ctx, s1: &Script, s2: &Script, m: usize) {
+    // solo transcripts
+    let solo = |sc: &Script| -> Vec<Vec<String>> {
+        let mut sess = Session::new(m, 3_600_000);
+        (0..sc.steps.len()).map(|i| run_script_ops(&mut sess, sc, i)).collect()
+    };
+    let t1 = solo(s1);
+    let t2 = solo(s2);
+    let mut count = 0;
+    interleavings(s1.steps.len(), s2.steps.len(), &mut |order| {
+        let mut sess = Session::new(m, 3_600_000);
+        let (mut i1, mut i2) = (0usize, 0usize);
+        let mut problems: Vec<(&'static str, String)> = vec![];
+        for &who in order {
+            if who == 0 {
+                let t = run_script_ops(&mut sess, s1, i1);
+                if t != t1[i1] {
+                    problems.push(("C12", format!("transfer 1, exchange {}: observed {:?} but alone it observes {:?}", i1, t, t1[i1])));
+                }
+                if t.iter().any(|x| x == "WRONG-CORRELATION") {
+                    problems.push(("C12", "reply does not carry the message id / token of the request being answered".into()));
+                }
+                i1 += 1;
+            } else {
+                let t = run_script_ops(&mut sess, s2, i2);
+                if t != t2[i2] {
+                    problems.push(("C12", format!("transfer 2, exchange {}: observed {:?} but alone it observes {:?}", i2, t, t2[i2])));
+                }
+                if t.iter().any(|x| x == "WRONG-CORRELATION") {
+                    problems.push(("C12", "reply does not carry the message id / token of the request being answered".into()));
+                }
+                i2 += 1;
+            }
+        }
+        count += 1;
+        report(cx, &sess, problems);
+    });
+    cx.stat_n("interleavings", count);
+}
+
+// ------------------------------------------------------------------ scenario E: cache lifetime (C20)
+
+fn run_lifetime(cx: &mut Ctx, rng: &mut Rng, shapes: &[ReqShape]) {
+    let ttl = *rng.pick(&[1000u64, 20, 60, 3_600_000]);
+    let m = 64usize;
+    let shape = &shapes[0];
+    let others: Vec<ReqShape> = (0..40)
+        .map(|i| {
+            let mut s = shape.clone();
+            s.path = vec![format!("o{}", i).into_bytes()];
+            s
+        })
+        .collect();
+    for kind in 0..2 {
+        for idle in [ttl - 1, ttl, ttl + 1, 4 * ttl] {
+            let mut sess = Session::new(m, ttl);
+            let mut problems: Vec<(&'static str, String)> = vec![];
+            let body = body_of(rng, 100);
+            // start a transfer on key kappa
+            if kind == 0 {
+                sess.step(Op::Req(1, shape.spec(1, None, None, &[])));
+                let a = sess.step(Op::App(0x45, vec![], body.clone()));
+                if a.outcome != Outcome::Ok(true) {
+                    problems.push(("C20", "setup: response was not fragmented".into()));
+                }
+            } else {
+                sess.step(Op::Req(1, shape.spec(1, Some(bv_bytes(0, true, 0)), None, &body[..16])));
+                sess.step(Op::Req(1, shape.spec(2, Some(bv_bytes(1, true, 0)), None, &body[16..32])));
+            }
+            // intervening requests on other keys, spread over the idle time
+            let n_other = *rng.pick(&[0usize, 1, 3, 25]);
+            let mut spent = 0u64;
+            for i in 0..n_other {
+                let dt = idle / (n_other as u64 + 1);
+                sess.step(Op::Tick(dt));
+                spent += dt;
+                sess.step(Op::Req(2, others[i % others.len()].spec(50 + i as u16, None, None, &[])));
+            }
+            sess.step(Op::Tick(idle - spent));
+            let should_live = idle <= ttl;
+            if kind == 0 {
+                let pk = sess.step(Op::Peek(1, shape.spec(9, None, None, &[])));
+                let o = sess.step(Op::Req(1, shape.spec(9, None, Some(bv_bytes(1, false, 0)), &[])));
+                if should_live {
+                    if o.outcome != Outcome::Ok(true) || o.resp.as_ref().map(|r| r.payload.clone()) != Some(body[16..32].to_vec()) {
+                        problems.push(("C20", format!("cached response idle for {} ms (expiry {} ms) was not used for the follow-up block: {}", idle, ttl, o.outcome.token())));
+                    }
+                } else {
+                    if o.outcome != Outcome::Ok(false) {
+                        problems.push(("C20", format!("cached response idle for {} ms (expiry {} ms) was still used: {}", idle, ttl, o.outcome.token())));
+                    }
+                    if pk.peek.is_some() {
+                        problems.push(("C20", "expired state still visible".into()));
+                    }
+                }
+            } else {
+                let o = sess.step(Op::Req(1, shape.spec(9, Some(bv_bytes(2, false, 0)), None, &body[32..40])));
+                let want: Vec<u8> = if should_live { body[..40].to_vec() } else { [vec![0u8; 32], body[32..40].to_vec()].concat() };
+                if o.outcome != Outcome::Ok(false) || o.req_payload != want {
+                    problems.push(("C20", format!("upload buffer idle for {} ms (expiry {} ms): final block delivered {} bytes, expected {} ({})", idle, ttl, o.req_payload.len(), want.len(), if should_live { "buffer retained" } else { "continue from an empty buffer" })));
+                }
+            }
+            report(cx, &sess, problems);
+        }
+    }
+}
+
+/// reclamation: abandoned transfers do not hold memory after expiry + one more use (observed through the allocator)
+fn run_reclaim(cx: &mut Ctx, shapes: &[ReqShape]) {
+    let shape = &shapes[0];
+    for n in [1usize, 5, 50] {
+        FakeClock::set_time(0);
+        let base = LIVE.load(Ordering::Relaxed);
+        let mut h: BlockHandler<u8> = BlockHandler::new(BlockHandlerConfig { max_total_message_size: 1152, cache_expiry_duration: Duration::from_millis(1000) });
+        for i in 0..n {
+            let mut s = shape.clone();
+            s.path = vec![format!("up{}", i).into_bytes()];
+            for b in 0..10 {
+                let mut req = CoapRequest::from_packet(s.spec(b as u16, Some(bv_bytes(b, true, 6)), None, &vec![7u8; 1024]).build(), 1u8);
+                let _ = h.intercept_request(&mut req);
+            }
+        }
+        let held = LIVE.load(Ordering::Relaxed).saturating_sub(base);
+        FakeClock::advance_time(1001);
+        let mut s = shape.clone();
+        s.path = vec![b"unrelated".to_vec()];
+        let mut req = CoapRequest::from_packet(s.spec(1, None, None, &[]).build(), 2u8);
+        let _ = h.intercept_request(&mut req);
+        let after = LIVE.load(Ordering::Relaxed).saturating_sub(base);
+        cx.stat_n(&format!("reclaim_{}_held_bytes", n), held as u64);
+        cx.stat_n(&format!("reclaim_{}_after_bytes", n), after as u64);
+        if held < n * 10 * 1024 || after > 8192 + held / 20 {
+            cx.oracle_fail("C20", &format!("BLK reclaim {}", n), &format!("{} abandoned uploads held {} bytes; after expiry and one unrelated request {} bytes are still held", n, held, after));
+        }
+        drop(h);
+    }
+}
+
+// ------------------------------------------------------------------ driver
+
+pub fn run(cx: &mut Ctx) {
+    let thorough = cx.tier_thorough;
+    let mut rng = Rng(cx.seed ^ 0x424c4b);
+    let shapes: Vec<ReqShape> = vec![
+        ReqShape { typ: 0, code: 1, tok: vec![0xaa, 0xbb], path: vec![b"test".to_vec()], extra: vec![] },
+        ReqShape { typ: 1, code: 3, tok: vec![], path: vec![b"a".to_vec(), b"b".to_vec()], extra: vec![] },
+        ReqShape { typ: 0, code: 2, tok: vec![1, 2, 3, 4, 5, 6, 7, 8], path: vec![b"sensors".to_vec(), b"temperature".to_vec(), b"x".to_vec()], extra: vec![(15, b"q=1".to_vec())] },
+        ReqShape { typ: 0, code: 1, tok: vec![9], path: vec![], extra: vec![(17, vec![50])] },
+    ];
+
+    // ---- corpus: witnesses of D13..D16 and K1
+    {
+        let mut s = Session::new(64, 60000);
+        run_download(cx, &Download { shape: &shapes[0], ep: 1, m: 64, body: vec![], resp_opts: vec![], first_szx: Some(2), reduce_at: None }, &mut s, true);
+        let mut s = Session::new(22, 60000);
+        s.step(Op::Req(1, shapes[0].spec(1, Some(bv_bytes(0, true, 0)), None, &[1; 16])));
+        let l = s.emit(cx);
+        if s.outs[0].outcome == Outcome::Panic {
+            cx.oracle_fail("C11", &l, "intercept_request panicked");
+        }
+        let mut s = Session::new(1152, 60000);
+        let mut sh = shapes[0].clone();
+        sh.extra.push((15, vec![0x71; 1400]));
+        s.step(Op::Req(1, sh.spec(1, None, None, &[])));
+        let l = s.emit(cx);
+        if s.outs[0].outcome == Outcome::Panic {
+            cx.oracle_fail("C11", &l, "intercept_request panicked");
+        }
+        let mut s = Session::new(64, 60000);
+        let other = body_of(&mut rng, 200);
+        run_upload(cx, &Upload { shape: &shapes[1], ep: 1, m: 64, body: body_of(&mut rng, 21), szx: 0, dups: vec![1], abandoned: Some((other, 0, 6)), dup_final: 0 }, &mut s);
+        let mut s = Session::new(64, 60000);
+        run_upload(cx, &Upload { shape: &shapes[1], ep: 1, m: 64, body: body_of(&mut rng, 40), szx: 0, dups: vec![1], abandoned: None, dup_final: 1 }, &mut s);
+    }
+
+    // ---- A. Block2 downloads
+    let small_sizes: [u8; 3] = [0, 1, 2];
+    for &szx in &small_sizes {
+        let s = 16usize << szx;
+        for len in 0..=(3 * s + 1) {
+            for (k, pref) in [None, Some(szx), Some(6u8)].iter().enumerate() {
+                if !thorough && k == 2 && len % 5 != 0 {
+                    continue;
+                }
+                let shape = &shapes[(len + k) % shapes.len()];
+                // budget chosen so that the server-side block size is s: overhead + 12 + s .. + 2s
+                let ov0 = overhead_of(&{
+                    let mut p = Packet::new();
+                    p.set_token(shape.tok.clone());
+                    p
+                });
+                let m = ov0 + 12 + s + (len % s.min(8));
+                let body = body_of(&mut rng, len);
+                let mut sess = Session::new(m, 60000);
+                run_download(cx, &Download { shape, ep: 1, m, body, resp_opts: if len % 3 == 0 { vec![(12, vec![40]), (4, vec![1, 2, 3])] } else { vec![] }, first_szx: *pref, reduce_at: None }, &mut sess, len % 4 == 0);
+            }
+        }
+    }
+    cx.exhaustive.push("Block2 downloads of every body length 0..3*blocksize+1 for block sizes 16, 32, 64 x client preference none / equal / larger".into());
+    let lens: Vec<usize> = if thorough { vec![0, 15, 16, 17, 1023, 1024, 1025, 2048, 4097, 20000] } else { vec![0, 15, 16, 17, 1023, 1024, 1025, 5000] };
+    for &len in &lens {
+        for &m in &[38usize, 64, 100, 128, 256, 512, 1024, 1152, 1279, 1280] {
+            for pref in [None, Some(0u8), Some(2), Some(4), Some(6)] {
+                let shape = &shapes[(len + m) % shapes.len()];
+                let body = body_of(&mut rng, len);
+                let mut sess = Session::new(m, 60000);
+                let reduce = if pref.is_none() && len > 64 { Some((1usize + (m % 3), 0u8)) } else { None };
+                run_download(cx, &Download { shape, ep: 2, m, body, resp_opts: vec![], first_szx: pref, reduce_at: reduce }, &mut sess, true);
+            }
+        }
+    }
+    // budgets in a band around every overhead + 12 + 2^j (C10), overheads varied
+    for shape in &shapes {
+        for ropts in [vec![], vec![(8u16, vec![0x6c; 40])], vec![(4u16, vec![1; 8]), (14, vec![60])]] {
+            let ov = {
+                let mut p = Packet::new();
+                p.header.set_type(coap_lite::MessageType::Acknowledgement);
+                p.set_token(shape.tok.clone());
+                for (n, v) in &ropts {
+                    p.add_option(CoapOption::from(*n), v.clone());
+                }
+                overhead_of(&p)
+            };
+            for j in 4..=10usize {
+                for d in -3i64..=3 {
+                    for extra in [12i64, 28, 32, 44] {
+                        let m = ov as i64 + extra + (1i64 << j) + d;
+                        if m < (ov + 28) as i64 || m > 1280 {
+                            continue;
+                        }
+                        for pref in [None, Some((j as u8).saturating_sub(4).min(7)), Some(7u8), Some(0)] {
+                            if !thorough && (d.abs() == 2 || extra == 44) && pref.is_some() {
+                                continue;
+                            }
+                            let body = body_of(&mut rng, (1usize << j) * 2 + 5);
+                            let mut sess = Session::new(m as usize, 60000);
+                            run_download(cx, &Download { shape, ep: 3, m: m as usize, body, resp_opts: ropts.clone(), first_szx: pref, reduce_at: None }, &mut sess, false);
+                        }
+                    }
+                }
+            }
+        }
+    }
+    let nr = if thorough { 6000 } else { 800 };
+    for _ in 0..nr {
+        let shape = rng.pick(&shapes).clone();
+        let m = rng.range(40, 1280) as usize;
+        let len = match rng.below(4) {
+            0 => rng.below(50),
+            1 => rng.below(3000),
+            _ => rng.below(400),
+        } as usize;
+        let body = body_of(&mut rng, len);
+        let pref = if rng.chance(1, 2) { Some(rng.below(7) as u8) } else { None };
+        let reduce = if rng.chance(1, 3) { Some((rng.range(1, 3) as usize, rng.below(3) as u8)) } else { None };
+        let mut sess = Session::new(m, 60000);
+        run_download(cx, &Download { shape: &shape, ep: 1, m, body, resp_opts: if rng.chance(1, 3) { vec![(12, vec![60])] } else { vec![] }, first_szx: pref, reduce_at: reduce }, &mut sess, rng.chance(1, 2));
+    }
+
+    // ---- B. Block1 uploads
+    for szx in 0..=6u8 {
+        let size = 16usize << szx;
+        let mut lens: Vec<usize> = vec![0, 1, size - 1, size, size + 1, 2 * size - 1, 2 * size, 2 * size + 1, 3 * size, 3 * size + 7];
+        if thorough {
+            lens.extend([4 * size, 5 * size - 1]);
+        }
+        for &len in &lens {
+            if len > 5000 {
+                continue;
+            }
+            for (k, dups) in [vec![1usize], vec![2], vec![1, 3, 2]].iter().enumerate() {
+                for aband in [None, Some(3usize), Some(6)] {
+                    if !thorough && k == 2 && aband == Some(3) {
+                        continue;
+                    }
+                    let shape = &shapes[(len + k) % 3];
+                    let ov = overhead_of(&shape.spec(1, Some(bv_bytes(1, true, szx)), None, &[]).build());
+                    let m = (ov + 12 + size + (len % 7)).min(1280);
+                    if m < ov + 12 + size {
+                        continue;
+                    }
+                    let body = body_of(&mut rng, len);
+                    let abandoned = aband.map(|n| (body_of(&mut rng, 8 * (16usize << ((szx + 1) % 3))), (szx + 1) % 3, n));
+                    let mut sess = Session::new(m, 60000);
+                    run_upload(cx, &Upload { shape, ep: 1, m, body, szx, dups: dups.clone(), abandoned, dup_final: 0 }, &mut sess);
+                }
+            }
+        }
+    }
+    cx.exhaustive.push("Block1 uploads at every size exponent 0..6 x body lengths around block multiples x duplicate patterns x abandoned prefixes of 0/3/6 blocks".into());
+    // K1 (known finding): final block delivered twice
+    for len in [10usize, 40] {
+        let mut sess = Session::new(64, 60000);
+        run_upload(cx, &Upload { shape: &shapes[0], ep: 1, m: 64, body: body_of(&mut rng, len), szx: 0, dups: vec![1], abandoned: None, dup_final: 1 }, &mut sess);
+    }
+    // too-large requests without Block1 -> 4.13 with a Block1 hint
+    for shape in &shapes {
+        for m in [40usize, 64, 100, 300, 1152] {
+            let ov = overhead_of(&shape.spec(1, None, None, &[]).build());
+            if m < ov + 12 + 16 {
+                continue;
+            }
+            for d in [-2i64, -1, 0, 1, 50] {
+                let pl = (m as i64 - ov as i64 - 12 + d).max(0) as usize;
+                let mut sess = Session::new(m, 60000);
+                let o = sess.step(Op::Req(1, shape.spec(7, None, None, &vec![3u8; pl])));
+                let line = sess.emit(cx);
+                let too_large = pl >= m - ov - 12;
+                let b1 = o.resp.as_ref().and_then(|r| first_opt(r, 27)).and_then(|b| parse_bv(&b));
+                if too_large {
+                    let ok = o.outcome == Outcome::Ok(true) && o.resp.as_ref().map(|r| u8::from(r.header.code)) == Some(0x8D) && b1.is_some();
+                    if !ok {
+                        cx.oracle_fail("C09", &line, &format!("request with {} payload bytes (budget {}, overhead {}) and no Block1 was not answered 4.13 with a Block1 hint: {}", pl, m, ov, o.outcome.token()));
+                    }
+                    if let Some((_, _, szx)) = b1 {
+                        if (16usize << szx) + ov + 12 > m {
+                            cx.oracle_fail("C10", &line, &format!("4.13 hints block size {} which does not fit the budget {}", 16usize << szx, m));
+                        }
+                    }
+                } else if o.outcome != Outcome::Ok(false) {
+                    cx.oracle_fail("C09", &line, &format!("request that fits the budget was not passed on: {}", o.outcome.token()));
+                }
+            }
+        }
+    }
+
+    // ---- C. hostile traffic
+    let nh = if thorough { 60000 } else { 8000 };
+    for _ in 0..nh {
+        run_hostile(cx, &mut rng, &shapes);
+    }
+
+    // ---- D. interleavings of two transfers differing in exactly one key component
+    let base = ReqShape { typ: 0, code: 1, tok: vec![1], path: vec![b"a".to_vec(), b"b".to_vec()], extra: vec![] };
+    let variants: Vec<(ReqShape, u8, &str)> = vec![
+        (base.clone(), 2, "endpoint"),
+        (ReqShape { code: 2, ..base.clone() }, 1, "method"),
+        (ReqShape { path: vec![b"a/b".to_vec()], ..base.clone() }, 1, "segmentation"),
+        (ReqShape { path: vec![b"a".to_vec()], ..base.clone() }, 1, "prefix"),
+        (ReqShape { path: vec![b"a".to_vec(), b"b".to_vec(), b"c".to_vec()], ..base.clone() }, 1, "longer path"),
+    ];
+    let body1 = body_of(&mut rng, 70);
+    let body2 = body_of(&mut rng, 60);
+    for (v, ep2, _what) in &variants {
+        let pairs: Vec<(Script, Script)> = vec![
+            (download_script(&base, 1, &body1, 0, 10), download_script(v, *ep2, &body2, 0, 40)),
+            (download_script(&base, 1, &body1, 0, 10), upload_script(&ReqShape { code: if v.code == 1 { 3 } else { v.code }, ..v.clone() }, *ep2, &body2, 0, 40)),
+            (upload_script(&ReqShape { code: 3, ..base.clone() }, 1, &body1, 0, 10), upload_script(&ReqShape { code: if v.code == 1 { 3 } else { 4 }, ..v.clone() }, *ep2, &body2, 0, 40)),
+        ];
+        for (s1, s2) in &pairs {
+            run_interleavings(cx, s1, s2, 48);
+        }
+    }
+    cx.exhaustive.push("all interleavings of 2 scripted transfers x 4 exchanges (downloads and uploads), pairwise differing in exactly one of endpoint / method / path segmentation / path prefix".into());
+
+    // ---- E. cache lifetime under the deterministic clock
+    for _ in 0..(if thorough { 40 } else { 8 }) {
+        run_lifetime(cx, &mut rng, &shapes);
+    }
+    // retention with many intervening keys
+    for n_other in [1usize, 50, 500, 2000] {
+        if !thorough && n_other > 500 {
+            continue;
+        }
+        let mut sess = Session::new(64, 3_600_000);
+        let shape = &shapes[0];
+        let body = body_of(&mut rng, 100);
+        sess.step(Op::Req(1, shape.spec(1, None, None, &[])));
+        sess.step(Op::App(0x45, vec![], body.clone()));
+        for i in 0..n_other {
+            let mut s = shape.clone();
+            s.path = vec![format!("k{}", i).into_bytes()];
+            sess.step(Op::Tick(1000));
+            sess.step(Op::Req((i % 200) as u8 + 3, s.spec(i as u16, None, None, &[])));
+        }
+        let o = sess.step(Op::Req(1, shape.spec(9, None, Some(bv_bytes(1, false, 0)), &[])));
+        let line = sess.emit(cx);
+        if o.outcome != Outcome::Ok(true) || o.resp.as_ref().map(|r| r.payload.clone()) != Some(body[16..32].to_vec()) {
+            cx.oracle_fail("C20", &line, &format!("cached response did not survive {} intervening requests on other keys within the expiry time", n_other));
+        }
+    }
+    run_reclaim(cx, &shapes);
+    let _ = (parse_val("-"), BlockValue::try_from(vec![]).is_ok(), ResponseType::Content);
+}
